@@ -10,15 +10,6 @@ open Str
 
 namespace Spec
 
-/-- no root path has an empty token (as in `//` or `/a//b`): CurlyRouter keeps such a token and
-    never matches it on a normal path, RouterJSR311 drops it -/
-def rootsClean (cfg : Config) : Bool :=
-  cfg.services.all (fun s => (tokenize s.rootPath).all (fun t => !t.isEmpty))
-
-/-- route ids are distinct within each WebService (so that "the same route id" means "the same route") -/
-def routeIdsDistinct (cfg : Config) : Bool :=
-  cfg.services.all (fun s => decide ((s.routes.map (·.id)).Nodup))
-
 end Spec
 
 /-! ### what the hypotheses say about one root path -/
